@@ -469,7 +469,7 @@ class Check:
             "wall_s": round(time.time() - self.t0, 2),
             "violations": len(self.violations),
         }
-        EVIDENCE.mkdir(exist_ok=True)
+        EVIDENCE.mkdir(parents=True, exist_ok=True)
         tmp = EVIDENCE / f".{self.id}.json.tmp{os.getpid()}"
         tmp.write_text(json.dumps(ev, indent=1, default=str))
         os.replace(tmp, EVIDENCE / f"{self.id}.json")
